@@ -319,7 +319,7 @@ class OtherValuesRoundTrip(Contract):
     symbolic = False
     has_native = True
     props = ("C08",)
-    bounded_scope = "comments (ASCII, accented, astral, empty author), byte blobs (empty, all 256 byte values, 10 kB pseudo-random), metadata dictionaries (nested dicts and lists, Unicode keys and values, numbers, booleans, None) on points and groups"
+    bounded_scope = "comments (ASCII, accented, astral, empty author), byte blobs (empty, all 256 byte values, 10 kB pseudo-random, and 1 B / 4 KiB / 1 MiB-1 / 1 MiB / 1 MiB+1 / 3 MiB+5), metadata dictionaries (nested dicts and lists, Unicode keys and values, numbers, booleans, None) on points and groups"
 
     def native_cases(self, tier, rng):
         for texts in (["first"], ["un café", "日本語 𝔘", ""], ["a" * 300, "line\nbreak"]):
@@ -327,6 +327,8 @@ class OtherValuesRoundTrip(Contract):
         yield {"kind": "file", "blob": "empty"}
         yield {"kind": "file", "blob": "all-bytes"}
         yield {"kind": "file", "blob": "random"}
+        for size in ("one-byte", "page", "below-1MiB", "1MiB", "above-1MiB", "3MiB"):
+            yield {"kind": "file", "blob": size}
         for md in ({"k": "v"}, {"niveau": {"clé": ["é", 1, 2.5, True, None], "deep": {"x": {"y": [1, [2, 3]]}}}, "n": 0, "f": -1.5e-30}, {"": "", "empty": {}, "list": []}):
             yield {"kind": "metadata", "value": md}
 
@@ -351,7 +353,10 @@ class OtherValuesRoundTrip(Contract):
                 return None
             if case["kind"] == "file":
                 rng = np.random.RandomState(3)
-                blob = {"empty": b"", "all-bytes": bytes(range(256)) * 3, "random": rng.bytes(10000)}[case["blob"]]
+                sizes = {"one-byte": 1, "page": 4096, "below-1MiB": 2 ** 20 - 1, "1MiB": 2 ** 20, "above-1MiB": 2 ** 20 + 1, "3MiB": 3 * 2 ** 20 + 5}
+                blob = {"empty": b"", "all-bytes": bytes(range(256)) * 3, "random": rng.bytes(10000)}.get(case["blob"])
+                if blob is None:
+                    blob = rng.bytes(sizes[case["blob"]])
                 src = os.path.join(d, "blob.bin")
                 with open(src, "wb") as fh:
                     fh.write(blob)
